@@ -29,7 +29,21 @@ def gen_scenario(rng, cfg):
     lines = []
     ncmd = 1 + rng.below(cfg.get("max_cmds", 3))
     for ci in range(ncmd):
-        if cfg.get("substitutions") and rng.chance(45):
+        if cfg.get("builtins") and rng.chance(20):
+            # the `read` builtin takes its line from `< file` or `<<< word`; a second command shows the variable
+            if rng.chance(50):
+                redir = {"k": "in", "target": rng.choice(["in0", "in0", "nofile"])}
+                value = None if redir["target"] == "nofile" else "input zero"
+            else:
+                w = "".join("abcdefghij0123456789"[(i * 3 + ci) % 20] for i in range(rng.choice([1, 5, 40])))
+                redir = {"k": "hs", "word": w, "size": len(w)}
+                value = w
+            lines.append({"stages": [{"kind": "builtin", "text": "read RV%d" % ci, "redirs": [redir]}], "probe": False,
+                          "read_value": value})
+            lines.append({"stages": [{"kind": "pup", "name": "rp%d" % ci, "text": "pup rp%d" % ci, "args": ["$RV%d" % ci, "end"],
+                                       "role": {"t": "io", "read": "none", "writes": [], "code": 0}, "redirs": []}],
+                          "probe": False, "shows_read": value, "after_read_status": value is None})
+        elif cfg.get("substitutions") and rng.chance(45):
             # a redirected command inside a command substitution: the capture pipes take the streams
             # that are not redirected (dup forms are not generated there: the code documents that
             # `2>&1` inside a substitution is not supported)
@@ -111,6 +125,13 @@ class C04Runner(LineRunner):
                 st.label(), extra, ", ".join(self.short(st.pup.fds[fd]["link"]) for fd in extra)))
         if st.hs is not None:
             self.sim.probe("here_string_reader_started")
+        if "shows_read" in line:
+            argv = st.pup.hello["argv"][2:]
+            want = ([line["shows_read"]] if line["shows_read"] else []) + ["end"]
+            if line["shows_read"] is not None and argv != want:
+                raise Violation("fd_target_mismatch", "`read` with an input redirection stored %r, the redirected input begins "
+                                "with %r" % (argv[:-1], line["shows_read"]))
+            self.sim.probe("read_builtin_input_redirection_checked")
         if line.get("probe"):
             extra = sorted(fd for fd in st.pup.fds if fd > 2)
             if extra:
@@ -162,6 +183,10 @@ class C04Runner(LineRunner):
                         self.learned[key] = data[prev:]
                 return
             text = st.spec["text"]
+            if "read_value" in line:
+                if line["read_value"] is None and status == 0:
+                    raise Violation("status_zero_on_unopenable", "`%s` with an unopenable input file reported status 0" % line["text"])
+                return
             known = None
             if text == "alias" and self.learned.get("out"):
                 known = (1, self.learned["out"])
